@@ -459,3 +459,55 @@ Ltac eval_fm := repeat first [ rewrite fm_in by (simpl; first [reflexivity | lra
                              | rewrite fm_out_low by (simpl; lra)
                              | rewrite fm_nil ].
 Ltac eval_im := repeat first [ rewrite im_in by (simpl; lra) | rewrite im_out by (simpl; lra) | rewrite im_nil ].
+
+(* ---------------------------------------------------------------- the contracts / hypotheses are satisfiable *)
+Fixpoint insertR (x : R) (l : list R) : list R :=
+  match l with [] => [x] | y :: t => if Rle_dec x y then x :: l else y :: insertR x t end.
+Fixpoint isortR (l : list R) : list R := match l with [] => [] | x :: t => insertR x (isortR t) end.
+
+Lemma insertR_perm x l : Permutation (insertR x l) (x :: l).
+Proof.
+  induction l as [|y t IH]; simpl; [apply Permutation_refl|]. destruct (Rle_dec x y); [apply Permutation_refl|].
+  eapply Permutation_trans; [apply perm_skip; exact IH|apply perm_swap].
+Qed.
+Lemma isortR_perm l : Permutation (isortR l) l.
+Proof. induction l; simpl; [constructor|]. eapply Permutation_trans; [apply insertR_perm|now constructor]. Qed.
+Lemma insertR_sorted x l : Sorted Rle l -> Sorted Rle (insertR x l).
+Proof.
+  induction 1 as [|y t Ht IH Hy]; simpl; [repeat constructor|]. destruct (Rle_dec x y).
+  - constructor; [now constructor|]. now constructor.
+  - constructor; [exact IH|]. destruct t as [|z t']; simpl.
+    + constructor. lra.
+    + destruct (Rle_dec x z); constructor; [lra|]. inversion Hy; assumption.
+Qed.
+Lemma isortR_sorted l : Sorted Rle (isortR l).
+Proof. induction l; simpl; [constructor|now apply insertR_sorted]. Qed.
+
+Lemma sort_contract_satisfiable : exists sortR : list R -> list R,
+  (forall l, Permutation (sortR l) l) /\ (forall l, Sorted Rle (sortR l)).
+Proof. exists isortR. split; [exact isortR_perm|exact isortR_sorted]. Qed.
+
+Definition ex_rows : data :=
+  [Row 1 10000000 false; Row 2 (1000000 * Rpower 2 (- 2)) true; Row 4 (1000000 * Rpower 4 (- 2)) true].
+
+Lemma ex_ff : finite_fractures ex_rows = [Row 2 (1000000 * Rpower 2 (- 2)) true; Row 4 (1000000 * Rpower 4 (- 2)) true].
+Proof.
+  assert (HR : runouts ex_rows = [Row 1 10000000 false]) by reflexivity.
+  assert (HM : max_runout_load ex_rows = 1) by (unfold max_runout_load; rewrite HR; reflexivity).
+  unfold finite_fractures. rewrite (finite_zone_runouts _ _ _ HR), HM. unfold ex_rows. eval_fm. reflexivity.
+Qed.
+
+Lemma hypotheses_satisfiable : exists d r1 r2,
+  positive d /\ runouts d <> [] /\ on_basquin_line 1000000 2 (finite_fractures d) /\
+  In r1 (finite_fractures d) /\ In r2 (finite_fractures d) /\ load r1 <> load r2.
+Proof.
+  exists ex_rows, (Row 2 (1000000 * Rpower 2 (- 2)) true), (Row 4 (1000000 * Rpower 4 (- 2)) true).
+  rewrite ex_ff. repeat split.
+  - destruct H as [<-|[<-|[<-|[]]]]; simpl; lra.
+  - destruct H as [<-|[<-|[<-|[]]]]; simpl; try lra; apply Rmult_lt_0_compat; try lra; apply exp_pos.
+  - discriminate.
+  - intros r [<-|[<-|[]]]; reflexivity.
+  - now left.
+  - right; now left.
+  - simpl. lra.
+Qed.
